@@ -235,7 +235,7 @@ func TestRSAEncSweep(t *testing.T) {
 func TestRSAEncRapid(t *testing.T) {
 	sec := vk.Sec("RSAEncRapid")
 	names := keyNames()
-	vk.Check(t, 400, 24000, func(rt *rapid.T) {
+	vk.Check(t, 400, 60000, func(rt *rapid.T) {
 		s := rapid.SampledFrom(refcrypto.RSAEncSpecs).Draw(rt, "alg")
 		c := rsaCase{API: rapid.SampledFrom([]string{"pub", "generic"}).Draw(rt, "api"), Alg: s.Name, Seed: rapid.Uint64().Draw(rt, "seed")}
 		kn := rapid.SampledFrom(rsaPrivNames).Draw(rt, "rsaKey")
@@ -356,7 +356,7 @@ func checkSig(c sigCase) (string, caseStat) {
 				return fmt.Sprintf("deterministic signature differs from the independent implementation: kit %x peer %x (%v)", so.sig, want, err), st
 			}
 		}
-		st.nontrivial = true
+		st.nontrivial = len(digest) > 0
 		st.classes = append(st.classes, "sig.kit-to-peer."+spec.Family)
 	}
 
@@ -395,7 +395,7 @@ func checkSig(c sigCase) (string, caseStat) {
 	if vo.pnc != nil || vo.err != nil || !vo.ok {
 		return fmt.Sprintf("kit rejects the independent implementation's signature %x over %x: %s", peerSig, digest, vo), st
 	}
-	st.nontrivial = true
+	st.nontrivial = st.nontrivial || len(digest) > 0
 	st.classes = append(st.classes, "sig.peer-to-kit."+spec.Family)
 	if sig != nil {
 		vo = kitVerify(digest, sig, c.Alg, vkey.JWK)
@@ -436,6 +436,7 @@ func checkSig(c sigCase) (string, caseStat) {
 	if vo.ok {
 		return fmt.Sprintf("changed %s accepted: digest %x signature %x -> %s", c.Mut.Comp, comps["digest"], comps["sig"], vo), st
 	}
+	st.nontrivial = true
 	st.classes = append(st.classes, "sig.reject."+c.Mut.Comp+"."+c.Mut.Kind)
 	return "", st
 }
@@ -525,7 +526,7 @@ func TestSigRapid(t *testing.T) {
 	sec := vk.Sec("SigRapid")
 	names := keyNames()
 	suit := map[string][]string{"rs": {"rsa2048", "rsa2048b", "rsa3072"}, "ps": {"rsa2048", "rsa2048b", "rsa3072"}, "ES256": {"p256", "p256b"}, "ES384": {"p384"}, "ES512": {"p521"}, "ed": {"ed25519", "ed25519b"}}
-	vk.Check(t, 1500, 60000, func(rt *rapid.T) {
+	vk.Check(t, 1500, 150000, func(rt *rapid.T) {
 		s := rapid.SampledFrom(refcrypto.SigSpecs).Draw(rt, "alg")
 		c := sigCase{Alg: s.Name, Seed: rapid.Uint64().Draw(rt, "seed"), MsgLen: rapid.IntRange(0, 200).Draw(rt, "msgLen")}
 		pool := suit[s.Family]
@@ -578,7 +579,9 @@ type nameCase struct {
 	Key   string
 }
 
-func (c nameCase) String() string { return fmt.Sprintf("name{entry=%s alg=%q key=%s}", c.Entry, c.Alg, c.Key) }
+func (c nameCase) String() string {
+	return fmt.Sprintf("name{entry=%s alg=%q key=%s}", c.Entry, c.Alg, c.Key)
+}
 
 var entries = []string{"EncryptSymmetric", "DecryptSymmetric", "Encrypt", "Decrypt", "EncryptPublicKey", "DecryptPrivateKey", "SignPrivateKey", "VerifyPublicKey"}
 
@@ -685,7 +688,7 @@ func TestAlgorithmNames(t *testing.T) {
 
 func TestAlgorithmNamesRapid(t *testing.T) {
 	sec := vk.Sec("AlgorithmNamesRapid")
-	vk.Check(t, 5000, 100000, func(rt *rapid.T) {
+	vk.Check(t, 5000, 300000, func(rt *rapid.T) {
 		var alg string
 		switch rapid.IntRange(0, 2).Draw(rt, "nameClass") {
 		case 0: // a registry name with one edit
